@@ -14,23 +14,37 @@ ASSUMPTIONS_COMMON = [
 
 
 def scan_trusted_base():
-    """mechanical scan for every assumption-introducing construct in the verification sources"""
-    pats = [("kani::assume", r"kani::assume\("), ("kani::stub", r"#\[kani::stub\(([^)]*)\)\]"), ("assume_specification", r"assume_specification"),
-            ("external_body", r"external_body"), ("admit", r"\badmit\(\)"), ("verus assume", r"(?<![:\w])assume\("), ("external_type_specification", r"external_type_specification")]
+    """mechanical scan for every assumption-introducing construct in the verification sources: each Kani stub
+    (callee replaced by its contract or by a recorder), each trusted Verus specification or axiom, and counts
+    of `kani::assume` (harness preconditions)"""
     out = []
-    for sub in ("kani/verif", "verus"):
-        d = os.path.join(VERIF, sub)
-        if not os.path.isdir(d):
+    d = os.path.join(VERIF, "kani", "verif")
+    for fn in sorted(os.listdir(d)):
+        if not fn.endswith(".rs"):
             continue
-        for fn in sorted(os.listdir(d)):
-            p = os.path.join(d, fn)
-            if not os.path.isfile(p):
-                continue
-            text = open(p).read()
-            for name, pat in pats:
-                n = len(re.findall(pat, text))
-                if n:
-                    out.append(f"{sub}/{fn}: {n} x {name}")
+        text = open(os.path.join(d, fn)).read()
+        stubs = sorted(set(re.findall(r"#\[kani::stub\(\s*([^,]+?)\s*,\s*([^)]+?)\s*\)\]", text)))
+        for tgt, rep in stubs:
+            out.append(f"kani/verif/{fn}: kani::stub {tgt} -> {rep}")
+        n = len(re.findall(r"kani::assume\(", text))
+        if n:
+            out.append(f"kani/verif/{fn}: {n} x kani::assume (harness preconditions and stand-in bound guards)")
+    d = os.path.join(VERIF, "verus")
+    for fn in sorted(os.listdir(d)):
+        text = open(os.path.join(d, fn)).read()
+        for m in re.finditer(r"assume_specification<[^\[]*\[\s*([^\]]+?)\s*\]", text):
+            out.append(f"verus/{fn}: assume_specification {m.group(1)} (trusted std specification)")
+        for m in re.finditer(r"#\[verifier::external_body\]\s*pub proof fn (\w+)", text):
+            out.append(f"verus/{fn}: external_body axiom {m.group(1)}")
+        n = len(re.findall(r"\badmit\(\)|(?<![:\w])assume\(", text))
+        if n:
+            out.append(f"verus/{fn}: {n} x assume/admit")
+    ann = os.path.join(VERIF, "contracts", "verus", "annotations.py")
+    text = open(ann).read()
+    n = len(re.findall(r"\badmit\(\)|(?<![:\w_])assume\(|external_body", text))
+    out.append(f"contracts/verus/annotations.py: {n} x assume/admit/external_body in spliced contract text")
+    out.append("kani/verif/vmap.rs: table stand-in for hashbrown under cfg(kani) (assumed contract on the dependency)")
+    out.append("verus: vstd's specifications of std::collections::HashMap/HashSet/Vec/Option and of hash-map iteration")
     return out
 
 
